@@ -12,6 +12,7 @@ package main
 // no field of the type holds a slab (pointer to a slab struct, or a slab interface).
 
 import (
+	"go/token"
 	"go/types"
 	"sort"
 	"strings"
@@ -344,4 +345,109 @@ func ruleI8(p *Prog, r *Report) {
 		})
 	}
 	r.Floor(R, "level cursors made during a walk", 2, n)
+}
+
+// I9 no built-in bound on how deep collision groups nest.
+//
+// The number of digest levels - and with it the depth to which collision groups nest - belongs to the map's
+// DigesterBuilder, not to the library. A walker that creates a nested walker of its own type may carry a depth
+// counter, but an error that depends on comparing that counter with a constant rejects legal maps of clients whose
+// digester has more levels. Obligation per method that builds a literal of its own receiver type with a field set to
+// `receiver.field + k`: no error return in the methods of that type is control dependent on a comparison of that
+// field with a constant.
+func ruleI9(p *Prog, r *Report) {
+	const R = "I9"
+	n := 0
+	for _, top := range p.TopFuncs() {
+		if p.IsTestFile(top.Pos()) || len(top.Params) == 0 || top.Signature.Recv() == nil {
+			continue
+		}
+		rt := rootNamed(top.Params[0].Type())
+		if rt == nil {
+			continue
+		}
+		eachInstr(top, func(in ssa.Instruction) {
+			al, ok := in.(*ssa.Alloc)
+			if !ok || !al.Heap || rootNamed(al.Type()) != rt {
+				return
+			}
+			n++
+			// depth fields of the literal
+			for _, ref := range *al.Referrers() {
+				fa, ok := ref.(*ssa.FieldAddr)
+				if !ok {
+					continue
+				}
+				for _, r2 := range *fa.Referrers() {
+					st, ok := r2.(*ssa.Store)
+					if !ok || st.Addr != ssa.Value(fa) {
+						continue
+					}
+					bo, ok := canonConv(st.Val).(*ssa.BinOp)
+					if !ok || bo.Op != token.ADD {
+						continue
+					}
+					src, ok := asLoadedField(bo.X)
+					if !ok || !sameValue(src.Base, top.Params[0]) {
+						continue
+					}
+					_, fname := structFieldName(fa.X.Type(), fa.Field)
+					if src.Field != fname {
+						continue
+					}
+					// comparisons of that field with a constant that decide an error
+					for _, m := range p.TopFuncs() {
+						if len(m.Params) == 0 || rootNamed(m.Params[0].Type()) != rt {
+							continue
+						}
+						for _, b := range m.Blocks {
+							ifi, ok := b.Instrs[len(b.Instrs)-1].(*ssa.If)
+							if !ok {
+								continue
+							}
+							c, ok := ifi.Cond.(*ssa.BinOp)
+							if !ok {
+								continue
+							}
+							isF := func(v ssa.Value) bool {
+								lf, ok := asLoadedField(v)
+								return ok && lf.Field == fname && sameValue(lf.Base, m.Params[0])
+							}
+							_, kx := cInt(c.X)
+							_, ky := cInt(c.Y)
+							if !((isF(c.X) && ky) || (isF(c.Y) && kx)) {
+								continue
+							}
+							for si, s := range b.Succs {
+								onlyErr := true
+								any := false
+								reachFrom(m, s.Instrs[0], nil, func(z ssa.Instruction) bool {
+									if ret, ok := z.(*ssa.Return); ok {
+										any = true
+										if cl, _ := classifyReturn(ret); cl != retError {
+											onlyErr = false
+										}
+										return true
+									}
+									return false
+								})
+								if ret, ok := s.Instrs[0].(*ssa.Return); ok {
+									any = true
+									if cl, _ := classifyReturn(ret); cl != retError {
+										onlyErr = false
+									}
+								}
+								_ = si
+								if any && onlyErr {
+									r.Bad(R, "no-built-in-depth-bound:"+p.Name(m), p.InstrPos(ifi), "an error depends on comparing the nesting depth ("+fname+") of this walker with a constant: how deep collision groups nest is decided by the client's digester (its number of levels), so legal maps of a digester with more levels are refused by this walker while lookups and the other iterators accept them")
+								}
+							}
+						}
+					}
+				}
+			}
+		})
+	}
+	r.Decide(true, R, "self-nesting-walkers", "-", "literals of the receiver's own type built in methods (walkers that nest): "+itoa(n)+"; none compares a depth counter with a constant to fail", "")
+	r.Floor(R, "self-nesting literals", 1, n)
 }
